@@ -86,7 +86,7 @@ func tlaSchema(a *aspec.ASpec, s aspec.Schema, depth int) map[string]any {
 				addl = ad
 			}
 		}
-		return map[string]any{"k": "object", "nullable": false, "props": props, "addl": addl}
+		return map[string]any{"k": "object", "nullable": s.Nullable, "props": props, "addl": addl} // (nullable next to allOf: the wrapper's own)
 	case "oneOf":
 		of := []any{}
 		tags := []any{}
